@@ -8,6 +8,10 @@ REAL_VS_STUB = {
         "pkg/output decorators, pkg/variables, pkg/task",
         "stage conditions: real os/exec of /bin/true, /bin/false, a missing path",
     ],
+    "rewritten_in_the_simulated_build": [
+        "taskctl's own sync.Mutex / sync.RWMutex / sync.Once -> channel-based equivalents (sim/vsync), so that lock waits are durable blocks in the synctest bubble",
+        "pkg/scheduler: `range g.Nodes()` -> seeded visiting order (hook verifNodes) with inactive yield points at every visit",
+    ],
     "stubs": [
         "external process execution: interp.ExecHandler replaced by the simulated process layer (exit status, output chunks, stall, interrupt behaviour chosen by the controller)",
         "clock: testing/synctest fake clock, advanced only by the controller",
